@@ -88,10 +88,21 @@ def build_coq(timeout=1500):
 FORBIDDEN = re.compile(r"\b(Admitted|admit|Axiom|Parameter|Conjecture|Unset Guard|bypass_check|Admit Obligations|give_up)\b")
 
 
+def project_files():
+    """the development = the .v files _CoqProject names (a file lying about that is not listed is not built,
+    not audited and not counted)"""
+    out = []
+    for line in open(os.path.join(COQ, "_CoqProject")):
+        line = line.strip()
+        if line.endswith(".v") and not line.startswith("-"):
+            out.append(os.path.join(COQ, line))
+    return out
+
+
 def audit_sources():
     """grep audit of the development: no declared axioms, no admits."""
     bad = []
-    for p in glob.glob(os.path.join(COQ, "theories", "**", "*.v"), recursive=True):
+    for p in project_files():
         txt = open(p).read()
         txt = re.sub(r"\(\*.*?\*\)", "", txt, flags=re.S)
         for i, line in enumerate(txt.splitlines(), 1):
@@ -106,8 +117,9 @@ def props_status(pid):
 
     Returns dict(obligations, discharged, theorems, axioms, ok, log) summed over the files; the
     first file must exist."""
+    listed = set(project_files())
     files = [pid] + sorted(os.path.basename(f)[:-2] for f in glob.glob(
-        os.path.join(COQ, "theories", "Props", pid + "[a-z].v")))
+        os.path.join(COQ, "theories", "Props", pid + "[a-z].v")) if f in listed)
     tot = None
     for name in files:
         r = _props_status_file(name)
